@@ -194,6 +194,9 @@ def run(rep):
         if C.norm(a) != C.norm(b):
             rep.disagreement('c04:' + s, 'outcome or std.trace sequence differs from the model',
                              {'src': s, 'sexp': G.to_sexp(p), 'impl': a, 'model': b})
+    # 1b. directed cases for the callback builtins (std.filter, std.foldl, std.sort, ...): value, error, order of the traces
+    C.compare_cases(rep, G.std_cases(rng, 600 if rep.tier == 'quick' else 10000), 'c04std:', 500, True,
+                    'callback builtin: outcome or std.trace sequence differs from the model')
     # 2. rewrites on the implementation
     cases = []
     for p, a in ok_prog:
